@@ -106,7 +106,7 @@ def check_account_proof(proof: bytes, shrd_blk: BlockIdExt, address: "Address", 
 
     account_state_root_proved = shard_account.cell
 
-    if account_state_root_proved[0].get_hash(0) != account_state_root.get_hash(0):
+    if account_state_root_proved[0].get_hash(0) != account_state_root.hash:  # own (representation) hash of the claimed state
         raise ProofError('account state proof invalid')
 
     if return_account_descr:
